@@ -415,6 +415,31 @@ impl Ready<Map> for MapBuilder<WithInput> {
                 ),
                 None => self.input.0,
             };
+            // The expressions of a map hold no aggregate
+            if Split::from_iter(map.named_exprs.clone()).len() != 1 {
+                return Err(Error::invalid_relation(format!(
+                    "A map on {} with an aggregate",
+                    input.name()
+                )));
+            }
+            // Every column of the expressions has to be a column of the input
+            let input_data_type = crate::data_type::DataTyped::data_type(input.as_ref());
+            let input_columns = input_data_type.hierarchy();
+            for expr in map
+                .named_exprs
+                .iter()
+                .map(|(_, expr)| expr)
+                .chain(map.filter.iter())
+            {
+                for column in expr.columns() {
+                    if input_columns.get(column).is_none() {
+                        return Err(Error::invalid_relation(format!(
+                            "Unknown column: {column} in a map on {}",
+                            input.name()
+                        )));
+                    }
+                }
+            }
             // Build the Relation
             Ok(Map::new(
                 name,
